@@ -193,7 +193,7 @@ PROPS['C19'] = {
 PROPS['C05'] = {
     'units': ['parser'],
     'level': 'proof',
-    'claim': 'Tier 1 (block scalar helpers, each against a line-model oracle from YAML 1.2 section 8.1): skip_block_scalar_first_line_indent == fli_* (auto-detected indentation = largest column reached on the leading blank lines and the first content line, at least parent indentation + 1, one LF recorded per blank line); skip_block_scalar_indent == bsi_* (at most `indent` spaces per line, whole blank lines, one LF each) with the SAME postcondition for the single-lookahead branch and the chunked branch; scan_block_scalar_content_line appends exactly the characters up to the next break/end (buffered and raw path alike) and advances the mark by that many characters. Thorough tier only (scan_block_scalar is verified there, 310 M resource units): a zero indentation indicator is an error; the blank lines in front of the first content line are kept as line feeds of their own; what is written between two content lines is bs_join (literal: every break verbatim; folded: the break between two non-indented lines becomes a space, or gives way to the blank lines after it, while breaks around more-indented lines are kept); each content line is appended verbatim; the tail is bs_tail (strip: nothing, clip: the last line\'s own break, keep: also the trailing blank lines). For all inputs and all conforming input back ends, no bound.',
+    'claim': 'Tier 1 (block scalar helpers, each against a line-model oracle from YAML 1.2 section 8.1): skip_block_scalar_first_line_indent == fli_* (auto-detected indentation = largest column reached on the leading blank lines and the first content line, at least parent indentation + 1, one LF recorded per blank line); skip_block_scalar_indent == bsi_* (at most `indent` spaces per line, whole blank lines, one LF each) with the SAME postcondition for the single-lookahead branch and the chunked branch; scan_block_scalar_content_line appends exactly the characters up to the next break/end (buffered and raw path alike) and advances the mark by that many characters. Thorough tier only (scan_block_scalar is verified there, 310 M resource units): a zero indentation indicator is an error; the blank lines in front of the first content line are kept as line feeds of their own; what is written between two content lines is bs_join (literal: every break verbatim; folded: the break between two non-indented lines becomes a space, or gives way to the blank lines after it, while breaks around more-indented lines are kept); each content line is appended verbatim; the tail is bs_tail (strip: nothing, clip: the last line\'s own break - an implicit one exactly when the input ends behind a content line that has none -, keep: also the trailing blank lines); at content indentation 0 a document marker line (--- or ...) is not a content line. For all inputs and all conforming input back ends, no bound.',
     'technique': 'Verus: function-against-spec-function postconditions (recursive line-model oracles) with loop invariants',
     'not_decided': ['quick tier: the body of scan_block_scalar is not verified (ASSUMED frame)', 'the join and tail clauses are stepwise oracles over a ghost accumulator (each step against bs_join / bs_tail), not one function of the whole input: characters consumed between the steps are covered by the helper contracts only', 'header parsing beyond the zero indicator (which characters select chomping / indentation) and the value of a block scalar without any content line (the early return at the end of the input) are not under contract; observed: `--- |` at the end of the input yields "\\n" for clip, `--- |` followed by `...` yields ""'],
     'trust': SCANNER_TRUST + ['A9 (thorough tier): the derived PartialEq of the field-less enum Chomping is structural equality (PartialEqSpecImpl inserted for it)'],
